@@ -657,6 +657,7 @@ class WorkTree:
                 old_head = self._repo.refs[ref]
                 c.parents = [old_head, *merge_heads]
             except KeyError:
+                old_head = None
                 c.parents = list(merge_heads)
 
         # Handle message after parents are set
@@ -726,7 +727,12 @@ class WorkTree:
             self._repo.object_store.add_object(c)
         else:
             try:
-                old_head = self._repo.refs[ref]
+                # Swap against the value the parents were chosen from rather
+                # than a fresh read of the ref: if another commit landed in
+                # between, this one must fail instead of dropping it from
+                # the history.
+                if old_head is None:
+                    raise KeyError(ref)
                 if should_sign:
                     from dulwich.signature import get_signature_vendor
 
